@@ -58,6 +58,9 @@ def recursiveByReading : List ((String × String) × String) := [
   (("sharepoint2text/parsing/extractors/html_extractor.py", "_HtmlTextExtractor._collect_headings_recursive"), "structural: recurses into node.children of the parsed HTML tree"),
   (("sharepoint2text/parsing/extractors/html_extractor.py", "_HtmlTextExtractor._collect_links_recursive"), "structural: recurses into node.children of the parsed HTML tree"),
   (("sharepoint2text/parsing/extractors/html_extractor.py", "_HtmlTextExtractor._collect_nodes_by_tag"), "structural: recurses into node.children of the parsed HTML tree"),
+  (("sharepoint2text/parsing/extractors/html_extractor.py", "_HtmlTextExtractor._find_nested_tables"), "structural: recurses into node.children of the parsed HTML tree (modelled and proved in C13: Model/Tables.lean)"),
+  (("sharepoint2text/parsing/extractors/html_extractor.py", "_HtmlTextExtractor._find_own_rows"), "structural: recurses into node.children of the parsed HTML tree (modelled and proved in C13)"),
+  (("sharepoint2text/parsing/extractors/html_extractor.py", "_HtmlTextExtractor._get_cell_text"), "structural: recurses into node.children of the parsed HTML tree (modelled and proved in C13)"),
   (("sharepoint2text/parsing/extractors/html_extractor.py", "_HtmlTextExtractor._find_node"), "structural: recurses into node.children of the parsed HTML tree"),
   (("sharepoint2text/parsing/extractors/html_extractor.py", "_HtmlTextExtractor._find_nodes"), "structural: recurses into node.children of the parsed HTML tree"),
   (("sharepoint2text/parsing/extractors/html_extractor.py", "_HtmlTextExtractor._get_node_text"), "structural: recurses into node.children of the parsed HTML tree"),
@@ -67,6 +70,7 @@ def recursiveByReading : List ((String × String) × String) := [
   (("sharepoint2text/parsing/extractors/ms_modern/docx_extractor.py", "_process_text_element"), "structural: recurses into the children of an XML element"),
   (("sharepoint2text/parsing/extractors/open_office/_shared.py", "_append_element_text"), "structural: recurses into the children of an XML element"),
   (("sharepoint2text/parsing/extractors/open_office/odf_extractor.py", "_mathml_to_text"), "structural: recurses into the children of a MathML element"),
+  (("sharepoint2text/parsing/extractors/open_office/odt_extractor.py", "_iter_own_rows"), "structural: recurses into the children of an ODF table element (finite parsed tree; modelled and proved in C13)"),
   (("sharepoint2text/parsing/extractors/open_office/odt_extractor.py", "_append_full_text_from_element"), "structural: recurses into the children of an XML element"),
   (("sharepoint2text/parsing/extractors/pdf/pdf_extractor.py", "_stable_pdf_str"), "structural: recurses into the items of a pypdf array; an IndirectObject is resolved once at top level and never followed when nested"),
   (("sharepoint2text/parsing/extractors/serialization.py", "_deserialize_value"), "structural: recurses into the members of a decoded JSON value"),
